@@ -53,6 +53,10 @@ type PeerConnection struct {
 	signalingState           SignalingState
 	iceConnectionState       atomic.Value // ICEConnectionState
 	connectionState          atomic.Value // PeerConnectionState
+	// connectionStateMu makes computing, comparing and storing connectionState
+	// in updateConnectionState one step, so a value computed before Close
+	// can not be stored after the closed state.
+	connectionStateMu sync.Mutex
 
 	idpLoginURL *string
 
@@ -835,6 +839,9 @@ func (pc *PeerConnection) updateConnectionState(
 	iceConnectionState ICEConnectionState,
 	dtlsTransportState DTLSTransportState,
 ) {
+	pc.connectionStateMu.Lock()
+	defer pc.connectionStateMu.Unlock()
+
 	connectionState := PeerConnectionStateNew
 	switch {
 	// The RTCPeerConnection object's [[IsClosed]] slot is true.
